@@ -34,6 +34,11 @@ pub enum SAct {
     Flush,
     /// the application answers every outstanding request in one enqueue_responses() call
     RespondAll(u8),
+    /// the application installs the kill switch now (configurations with `kill_install_action`)
+    InstallKill,
+    /// the application hands in a second response for the request it answered last, whose
+    /// connection has been released meanwhile (tolerated and ignored by the implementation)
+    LateDuplicate,
 }
 
 pub fn enc(a: SAct) -> u64 {
@@ -50,6 +55,8 @@ pub fn enc(a: SAct) -> u64 {
         SAct::SetLimit(l) => 10 << 32 | l as u64,
         SAct::Flush => 11 << 32,
         SAct::RespondAll(s) => 12 << 32 | s as u64,
+        SAct::InstallKill => 13 << 32,
+        SAct::LateDuplicate => 14 << 32,
     }
 }
 pub fn dec(x: u64) -> SAct {
@@ -67,6 +74,8 @@ pub fn dec(x: u64) -> SAct {
         10 => SAct::SetLimit(lo as u8),
         11 => SAct::Flush,
         12 => SAct::RespondAll(lo as u8),
+        13 => SAct::InstallKill,
+        14 => SAct::LateDuplicate,
         _ => panic!("bad action"),
     }
 }
@@ -162,6 +171,10 @@ pub struct SrvCfg {
     pub kill_switch_late: bool,
     /// flush_outgoing_writes() is an explored application action
     pub flush_action: bool,
+    /// the server starts without kill switch; installing it is an explored application action
+    pub kill_install_action: bool,
+    /// a duplicate response for the last answered request of a released connection is an explored action
+    pub late_duplicates: bool,
 }
 
 impl SrvCfg {
@@ -191,6 +204,8 @@ impl SrvCfg {
             yield_promptly: false,
             kill_switch_late: false,
             flush_action: false,
+            kill_install_action: false,
+            late_duplicates: false,
         }
     }
     pub fn to_json(&self) -> Value {
@@ -205,7 +220,7 @@ impl SrvCfg {
             "max_depth": self.max_depth, "closure_all": self.closure_all, "closure_witness": self.closure_witness,
             "release_check": self.release_check, "flush_probe": self.flush_probe, "twin_without_kill": self.twin_without_kill,
             "respond_any": self.respond_any, "max_outstanding_for_respond": self.max_outstanding_for_respond,
-            "never_yield": self.never_yield, "must_yield_after": self.must_yield_after, "closure_c11": self.closure_c11, "yield_promptly": self.yield_promptly, "kill_switch_late": self.kill_switch_late, "flush_action": self.flush_action,
+            "never_yield": self.never_yield, "must_yield_after": self.must_yield_after, "closure_c11": self.closure_c11, "yield_promptly": self.yield_promptly, "kill_switch_late": self.kill_switch_late, "flush_action": self.flush_action, "kill_install_action": self.kill_install_action, "late_duplicates": self.late_duplicates,
         })
     }
     pub fn from_json(v: &Value) -> SrvCfg {
@@ -258,6 +273,8 @@ impl SrvCfg {
             closure_c11: b("closure_c11"),
             yield_promptly: b("yield_promptly"),
             kill_switch_late: b("kill_switch_late"),
+            kill_install_action: b("kill_install_action"),
+            late_duplicates: b("late_duplicates"),
             flush_action: b("flush_action"),
         }
     }
@@ -312,6 +329,16 @@ struct Client {
     write_failed_known: bool,
     /// stream offset up to which the server had consumed this client's bytes before the current poll
     consumed_before_poll: usize,
+    /// Reference parser for the bytes the server has consumed from this client (what it took out
+    /// of the socket is observable through FIONREAD): requests it must yield, in order.
+    /// descriptor number this client's connection had at the server before it was released
+    last_server_fd: Option<RawFd>,
+    ref_machine: Option<ss::Machine>,
+    ref_fed: usize,
+    ref_expected: VecDeque<String>,
+    /// the reference stopped judging this client (input outside the judged grammar, or the
+    /// connection was released in a call whose final consumption cannot be measured)
+    ref_off: bool,
 }
 
 struct Outstanding {
@@ -350,12 +377,17 @@ pub struct World<'a> {
     epfd: RawFd,
     kill: Option<EventFd>,
     killed: bool,
+    kill_installed: bool,
     polls_after_kill: usize,
     devnull: RawFd,
     foreign: BTreeSet<RawFd>,
     clients: Vec<Client>,
     pending_accept: VecDeque<usize>,
     outstanding: Vec<Outstanding>,
+    /// the request answered last (kept so that a late duplicate can be produced from it)
+    last_answered: Option<Outstanding>,
+    /// with_kill_switch as passed to the constructor (InstallKill is a no-op on the twin)
+    with_kill: bool,
     limit: usize,
     released_fds: BTreeSet<RawFd>,
     pub violation: Option<(String, String)>,
@@ -434,7 +466,7 @@ impl<'a> World<'a> {
         if cfg.kill_switch_late {
             server.start_server().expect("start_server");
         }
-        if with_kill_switch {
+        if with_kill_switch && !cfg.kill_install_action {
             let ev = EventFd::new(libc::EFD_NONBLOCK).expect("eventfd");
             let mine = ev.try_clone().expect("eventfd clone");
             server.add_kill_switch(ev).expect("add_kill_switch");
@@ -467,6 +499,11 @@ impl<'a> World<'a> {
                 answered_after_shut_rd: false,
                 write_failed_known: false,
                 consumed_before_poll: 0,
+                last_server_fd: None,
+                ref_machine: None,
+                ref_fed: 0,
+                ref_expected: VecDeque::new(),
+                ref_off: false,
             });
         }
         let mut w = World {
@@ -477,6 +514,9 @@ impl<'a> World<'a> {
             kill,
             killed: false,
             polls_after_kill: 0,
+            kill_installed: false,
+            last_answered: None,
+            with_kill: with_kill_switch,
             devnull,
             foreign,
             clients,
@@ -602,6 +642,53 @@ impl<'a> World<'a> {
                 }
                 self.note("Kill", json!({}));
                 self.log.push("kill".into());
+            }
+            SAct::InstallKill => {
+                if self.with_kill && self.kill.is_none() {
+                    let ev = EventFd::new(libc::EFD_NONBLOCK).expect("eventfd");
+                    let mine = ev.try_clone().expect("eventfd clone");
+                    let num = ev.as_raw_fd();
+                    let r = util::catch(|| self.server.as_mut().unwrap().add_kill_switch(ev));
+                    self.kill = Some(mine);
+                    self.note("InstallKill", json!({"eventfd": num, "reuses_released_number": self.released_fds.contains(&num), "result": format!("{:?}", r.as_ref().map(|x| x.as_ref().map(|_| ()).map_err(|e| format!("{:?}", e))))}));
+                    match r {
+                        Err(p) => return self.fail("panic", format!("add_kill_switch panicked: {}", p)),
+                        Ok(Err(e)) => return self.fail("add-kill-switch-failed", format!("add_kill_switch on a started server returned Err({:?})", e)),
+                        Ok(Ok(())) => {}
+                    }
+                } else {
+                    self.note("InstallKill", json!({"skipped": "twin without kill switch"}));
+                }
+                self.kill_installed = true;
+                self.log.push("install-kill".into());
+            }
+            SAct::LateDuplicate => {
+                // (on the twin server descriptor numbers differ: the same guard as in enabled())
+                let names_nothing = self.last_answered.as_ref().map_or(false, |o| {
+                    let cl = &self.clients[o.client];
+                    cl.accepted && cl.server_fd.is_none() && cl.last_server_fd.map_or(false, |f| !self.server_table().iter().any(|e| e.0 == f))
+                });
+                if !names_nothing {
+                    self.last_answered = None;
+                    self.note("LateDuplicate", json!({"skipped": "the identifier names a live connection here"}));
+                    self.log.push("late-duplicate".into());
+                    return;
+                }
+                if let Some(o) = self.last_answered.take() {
+                    let (c, k) = (o.client, o.seq);
+                    let resp = o.sreq.process(|req| {
+                        let mut r = Response::new(req.http_version(), StatusCode::OK);
+                        r.set_body(Body::new(format!("c{}r{}:duplicate", c, k).into_bytes()));
+                        r
+                    });
+                    // whatever respond() says about it is fine; nothing else may change
+                    let r = util::catch(|| self.server.as_mut().unwrap().respond(resp));
+                    self.note(&format!("LateDuplicate(c{}r{})", c, k), json!({"result": format!("{:?}", r.as_ref().map(|x| x.as_ref().map(|_| ()).map_err(|e| format!("{:?}", e))))}));
+                    if let Err(p) = r {
+                        return self.fail("panic", format!("HttpServer::respond panicked on a late duplicate: {}", p));
+                    }
+                    self.log.push("late-duplicate".into());
+                }
             }
             SAct::RespondAll(sz) => {
                 let size = self.cfg.resp_sizes[sz as usize % self.cfg.resp_sizes.len()];
@@ -810,6 +897,7 @@ impl<'a> World<'a> {
             for c in self.clients.iter_mut() {
                 if c.server_fd == Some(*fd) {
                     c.server_fd = None;
+                    c.last_server_fd = Some(*fd);
                 }
             }
         }
@@ -890,6 +978,7 @@ impl<'a> World<'a> {
                 self.facts |= 1 << 5;
             }
         }
+        self.feed_references();
         if let Some((c, n)) = refused_below {
             self.note("Poll", json!({"order": order, "batch": format!("{:?}", batch), "accept": accepted_trace}));
             return self.fail("refused-below-capacity", format!("client {} was turned away although only {} connections were open when the server handled the listener event", c, n));
@@ -957,7 +1046,102 @@ impl<'a> World<'a> {
         self.check_descriptors("after requests()");
     }
 
+    /// Feeds every client's reference parser with the bytes the server has taken out of that
+    /// client's socket so far (segment by segment as `try_read` takes them: at most the free
+    /// space of the receive buffer per read; after a parse error the parser restarts clean and
+    /// the rest of that read is dropped - C11).
+    fn feed_references(&mut self) {
+        let in_table: BTreeSet<RawFd> = self.server_table().iter().map(|e| e.0).collect();
+        let bs = crate::connx::buffer_size();
+        for c in self.clients.iter_mut() {
+            if !c.accepted || c.ref_off {
+                continue;
+            }
+            let sfd = match c.server_fd {
+                Some(f) if in_table.contains(&f) => f,
+                _ => {
+                    c.ref_off = true;
+                    continue;
+                }
+            };
+            let unread = fionread(sfd).max(0) as usize;
+            let consumed = c.sent.len().saturating_sub(unread);
+            if consumed <= c.ref_fed {
+                continue;
+            }
+            let limit = c.limit_at_accept;
+            let mut m = c.ref_machine.take().unwrap_or_else(|| ss::Machine::new(limit, bs));
+            let mut pos = c.ref_fed;
+            while pos < consumed && !c.ref_off {
+                let space = bs.saturating_sub(m.partial_line_len()).max(1);
+                let end = (pos + space).min(consumed);
+                let mut evs = vec![];
+                for b in &c.sent[pos..end] {
+                    m.feed(*b, &mut evs);
+                }
+                // the server answers a parse error with a 400 that announces "all previous
+                // unanswered requests will be dropped": requests completed by the same read as
+                // the error are discarded by design, not yielded
+                let failed = evs.iter().any(|e| matches!(e, ss::Event::Error(_)));
+                for e in evs {
+                    match e {
+                        ss::Event::Request(r) if !failed => c.ref_expected.push_back(r.uri.clone()),
+                        ss::Event::Unjudged => c.ref_off = true,
+                        _ => {}
+                    }
+                }
+                if m.is_dead() {
+                    m = ss::Machine::new(limit, bs);
+                }
+                pos = end;
+            }
+            c.ref_fed = consumed;
+            c.ref_machine = Some(m);
+        }
+    }
+
+    /// After fair completion: every request the reference found in the bytes a live connection
+    /// has consumed must have been yielded.
+    fn check_references_drained(&mut self) {
+        if self.violation.is_some() {
+            return;
+        }
+        self.feed_references();
+        let table = self.server_table();
+        for i in 0..self.clients.len() {
+            let c = &self.clients[i];
+            if !c.accepted || c.ref_off || c.closed || c.shut_wr || c.shut_rd || c.reset {
+                continue;
+            }
+            let sfd = match c.server_fd {
+                Some(f) => f,
+                None => continue,
+            };
+            if !table.iter().any(|e| e.0 == sfd && e.1 != 2) || fionread(sfd) != 0 {
+                continue;
+            }
+            if let Some(u) = c.ref_expected.front() {
+                let d = format!("the server has consumed all {} bytes client {} sent; they contain the complete well-formed request {:?} (after earlier rejected input, if any, was answered), but it was never yielded ({} yielded so far; sent {:?})", c.sent.len(), i, u, c.yielded, show(&c.sent[..c.sent.len().min(300)]));
+                return self.fail("request-never-yielded", d);
+            }
+        }
+    }
+
     fn check_yield(&mut self, c: usize, k: usize) {
+        if !self.clients[c].ref_off && self.clients[c].ref_machine.is_some() {
+            let want = format!("/c{}/r{}", c, k);
+            match self.clients[c].ref_expected.front().cloned() {
+                Some(u) if u == want || u.ends_with(&want) => {
+                    self.clients[c].ref_expected.pop_front();
+                }
+                Some(u) => {
+                    return self.fail("yield-not-next-in-stream", format!("request {} of client {} was yielded, but the next complete request in the bytes the server has consumed from that client is {:?}", want, c, u));
+                }
+                None => {
+                    return self.fail("yield-not-in-consumed-input", format!("request {} of client {} was yielded, but the bytes the server has consumed from that client so far ({} of {} sent) contain no complete request that has not been yielded already", want, c, self.clients[c].ref_fed, self.clients[c].sent.len()));
+                }
+            }
+        }
         if self.cfg.yield_promptly {
             // where does request k end in what the client sent?
             let sent = &self.clients[c].sent;
@@ -1021,6 +1205,7 @@ impl<'a> World<'a> {
             r
         });
         let r = util::catch(|| self.server.as_mut().unwrap().respond(resp));
+        self.last_answered = Some(o);
         self.clients[c].supplied.push((k, size));
         if self.clients[c].shut_rd {
             self.clients[c].answered_after_shut_rd = true;
@@ -1167,7 +1352,7 @@ impl<'a> World<'a> {
         let pa: Vec<u8> = self.pending_accept.iter().map(|x| *x as u8).collect();
         let ready = format!("{:?}", self.ready_set());
         let masks = self.interest_masks();
-        let misc = [self.killed as u8, self.polls_after_kill.min(3) as u8];
+        let misc = [self.killed as u8, self.polls_after_kill.min(3) as u8, self.kill_installed as u8, if self.cfg.late_duplicates { self.last_answered.as_ref().map_or(255, |o| o.client as u8) } else { 0 }];
         let rel: Vec<u8> = self.released_fds.iter().flat_map(|f| f.to_le_bytes()).collect();
         util::hash128(&[&t, &cl, &o, &pa, ready.as_bytes(), masks.as_bytes(), &misc, &(self.limit as u64).to_le_bytes(), &rel])
     }
@@ -1258,8 +1443,24 @@ impl<'a> World<'a> {
         if self.outstanding.len() >= 2 && self.cfg.respond_any {
             v.push(SAct::RespondAll(0));
         }
-        if self.cfg.kill_action && self.kill.is_some() {
+        if self.cfg.kill_action && (self.kill.is_some() || (self.cfg.kill_install_action && self.kill_installed)) {
             v.push(SAct::Kill);
+        }
+        if self.cfg.kill_install_action && !self.kill_installed {
+            v.push(SAct::InstallKill);
+        }
+        if self.cfg.late_duplicates {
+            if let Some(o) = &self.last_answered {
+                // only once the connection it came from has been released
+                // (answering a request twice is the application's mistake; the implementation
+                // tolerates it when the identifier names no connection any more - which is the
+                // only case explored: if another client's connection has taken the number the
+                // duplicate is indistinguishable from an answer for that client)
+                let cl = &self.clients[o.client];
+                if cl.accepted && cl.server_fd.is_none() && cl.last_server_fd.map_or(false, |f| !self.server_table().iter().any(|e| e.0 == f)) {
+                    v.push(SAct::LateDuplicate);
+                }
+            }
         }
         if self.cfg.flush_action && self.server_table().iter().any(|e| e.1 == 1) {
             v.push(SAct::Flush);
@@ -1396,6 +1597,7 @@ impl<'a> World<'a> {
             let d = format!("no client input, unsent output or unanswered request remains, but the epoll descriptor still signals readiness (ready set {:?}, interest {})", self.ready_set(), self.interest_masks());
             return self.fail("spin", d);
         }
+        self.check_references_drained();
     }
 
     /// C09 closure: a fresh witness completes a round trip; afterwards dead connections are gone.
@@ -1491,6 +1693,7 @@ impl<'a> World<'a> {
                 return self.fail("later-valid-request-fails", d);
             }
         }
+        self.check_references_drained();
     }
 
     /// After the application answered everything: connections whose client is gone are released.
